@@ -61,6 +61,20 @@ def cases(rng, tier):
         d = dict(base)
         del d[key]
         yield Case(["q reduce %s 20 %s" % ("MDEDSTRHKDDAGSY", utok(d))], {"kind": "user-alphabet-missing-key"})
+    # user alphabets with 20 DISTINCT values (a permutation of the residues: nothing merged, everything renamed)
+    for _ in range(6 if tier == "quick" else 40):
+        perm = list(gen.AAS)
+        k = rng.random()
+        if k < 0.3:
+            i, j = rng.sample(range(20), 2)
+            perm[i], perm[j] = perm[j], perm[i]
+        elif k < 0.6:
+            sh = rng.randint(1, 19)
+            perm = perm[sh:] + perm[:sh]
+        else:
+            rng.shuffle(perm)
+        d = dict(zip(gen.AAS, perm))
+        yield Case(["q reduce %s %d %s" % ("MKRDESTAYKKRRDDEEGWPCFHILNQV", rng.choice([20, 5]), utok(d))], {"kind": "user-alphabet-permutation"})
     # dictionaries with MORE than the 20 keys: an extra key that is itself used as a target / is a valid or invalid symbol
     for sym in ["X", "B", "k", "-", "Z", "1", "AA"]:
         for key in ("G", "S", "K", "W", "A"):
